@@ -718,8 +718,8 @@ def rule_push(c: Ctx) -> RuleResult:
                     key = f"{f.short}|level-store|{alpha(f, n)}"
                     if f in allowed or f.name == "__init__":
                         r.add(key, c.where(f, n), f.short, U(n), "discharged", "inside a push method / constructor")
-                    elif f.short == "ParserInline.skipToken" and isinstance(n, ast.AugAssign) and _paired_level(f, n):
-                        r.add(key, c.where(f, n), f.short, U(n), "discharged", "skipToken's paired += 1 / -= 1 around the dispatch (same block, no exit in between)")
+                    elif isinstance(n, ast.AugAssign) and _paired_level(f, n):
+                        r.add(key, c.where(f, n), f.short, U(n), "discharged", "paired += 1 / -= 1 around a validation-mode dispatch (same block, no exit from the region in between)")
                     else:
                         r.add(key, c.where(f, n), f.short, U(n), "violation",
                               "the nesting level is stored outside push(): token levels no longer equal their depth")
@@ -738,8 +738,20 @@ def _paired_level(f: Func, n: ast.AugAssign) -> bool:
                 return False
             i, j = blk.index(a), blk.index(b)
             for mid in blk[i + 1:j]:
-                if any(isinstance(x, (ast.Return, ast.Break, ast.Continue, ast.Raise)) for x in ast.walk(mid)):
-                    return False
+                for x in ast.walk(mid):
+                    if isinstance(x, (ast.Return, ast.Raise)):
+                        return False
+                    if isinstance(x, (ast.Break, ast.Continue)):
+                        # leaves the region only if its loop is not itself inside the region
+                        p_ = f.module.parents.get(x)
+                        inner_loop = False
+                        while p_ is not None and p_ is not mid and p_ is not f.node:
+                            if isinstance(p_, (ast.For, ast.While)):
+                                inner_loop = True
+                                break
+                            p_ = f.module.parents.get(p_)
+                        if not inner_loop and not isinstance(mid, (ast.For, ast.While)):
+                            return False
             return True
     return False
 
